@@ -107,8 +107,22 @@ def classify(c, prod, exp, grown, frac):
     return "outdoor-production-differs-from-grown-minus-greenhouse-share"
 
 
+def safe_compute(ctx, c, kind="direct", **extra):
+    """the supply classes must produce the series for every valid constants dictionary: a crash is a failure of the property's
+    'one value per simulated month', not a harness problem"""
+    try:
+        return compute(c)
+    except Exception as e:     # noqa: BLE001 - anything the code under test raises on generated-valid input
+        import traceback
+        fr = [f for f in traceback.extract_tb(e.__traceback__) if "/src/" in f.filename]
+        where = "%s:%s" % (fr[-1].filename.split("/src/")[-1], fr[-1].name) if fr else "?"
+        ctx.fail("supply-code-raises-on-valid-constants:%s@%s" % (type(e).__name__, where), "%s: %s" % (type(e).__name__, str(e)[:120]),
+                 dict(kind=kind, constants=c, **extra))
+        raise
+
+
 def check_constants(ctx, c, key):
-    prod, ghk, oc = compute(c)
+    prod, ghk, oc = safe_compute(ctx, c)
     exp, grown, frac = expected_production(c)
     n = c["NMONTHS"]
     nt = (frac.max() > 0) or bool(np.any((exp > 0) & (exp < 1)))
